@@ -24,6 +24,9 @@ def lit (v : Int) : TV := (i32, v)
 
 def rbool (b : Bool) : Res Bool := .ok b
 
+/-- `has_most_negative_number<T>`: signed and `lowest() < -max()` (every two's complement type) -/
+def hasMostNegative (t : IntTy) : Bool := t.signed && decide (t.lowest < -t.max)
+
 /-- `a && b` with C++ short-circuit evaluation -/
 def andThen (a : Bool) (b : Res Bool) : Res Bool := if a then b else .ok false
 
@@ -94,12 +97,28 @@ def isOverflowBin (op : BinOp) (pos : Bool) (x y : TV) : Res Bool :=
   | .shl, false =>
     if !L.signed then .ok false else
     andThen (cCmp .lt x (lit 0)) <| andThen (cCmp .gt y (lit 0)) <|
-    if cCmp .lt y (lit (posDigits T)) then do
+    -- max_shift = positive_digits + has_most_negative_number<result>: `-1 << digits` is the lowest
+    -- value of a two's complement result and is in range (repair of C06.shl_minus_one_to_lowest)
+    if cCmp .lt y (lit (posDigits T + (if hasMostNegative T then 1 else 0))) then do
       let k ← cBin .sub (lit (posDigits T)) y
       let s ← cBin .shr x k
       pure (cCmp .ne s (lit (-1)))
     else .ok true
   | _, _ => .ok false
+
+/-- **as found** (before the repair of `C06.shl_minus_one_to_lowest`):
+`is_overflow<shift_left_op, negative>` compared the count with `positive_digits` only, so
+`-1 << digits` — the lowest value of the result type — was flagged -/
+def isOverflowShlNegOrig (x y : TV) : Res Bool :=
+  let L := x.1
+  let T := binResultTy .shl L y.1
+  if !L.signed then .ok false else
+  andThen (cCmp .lt x (lit 0)) <| andThen (cCmp .gt y (lit 0)) <|
+  if cCmp .lt y (lit (posDigits T)) then do
+    let k ← cBin .sub (lit (posDigits T)) y
+    let s ← cBin .shr x k
+    pure (cCmp .ne s (lit (-1)))
+  else .ok true
 
 /-- `measure_polarity` : 1, 0, -1 -/
 def measurePolarity (x : TV) : Int :=
@@ -111,6 +130,9 @@ def overflowPolarity (op : BinOp) (x y : TV) : Int :=
   | .add => if cCmp .gt x (zero x.1) && cCmp .gt y (zero y.1) then 1 else -1
   | .sub => if cCmp .lt y (zero y.1) then 1 else -1
   | _ => measurePolarity x * measurePolarity y
+
+/-- `shift_op` -/
+def isShift (op : BinOp) : Bool := op == .shl || op == .shr
 
 /-- does `builtin_overflow_operator<Operator, Lhs, Rhs>` exist on this path -/
 def hasBuiltin (path : Path) (op : BinOp) : Bool :=
@@ -132,6 +154,26 @@ def checkedBin (path : Path) (tag : OvTag) (op : BinOp) (x y : TV) : Res TV :=
     let pos ← isOverflowBin op true x y
     if pos then react tag true T else do
       let neg ← isOverflowBin op false x y
+      if neg then react tag false T
+      -- shift_op custom_operator:
+      -- `rhs >= max(width<result>, width<Lhs>) ? result(lhs < 0 ? -1 : 0) : Operator{}(lhs, rhs)`
+      -- (`width<T> = digits_v<T> + signedness_v<T>`, the bit count of a built-in type; every bit of
+      -- lhs is shifted out of the result and the fundamental operator would be undefined) — repair
+      -- of C06/C07.shl_zero_by_wide_count and C07.shr_count_ge_width
+      else if isShift op && cCmp .ge y (lit (max T.bits x.1.bits : Nat)) then
+        .ok (convert T (lit (if cCmp .lt x (lit 0) then -1 else 0)))
+      else cBin op x y
+
+/-- **as found** (before the repairs of `shl_zero_by_wide_count`, `shr_count_ge_width`,
+`shl_minus_one_to_lowest`): the tagged shift operators ran the two tests (the negative one as found)
+and then the fundamental operator with whatever count they were given -/
+def checkedShiftOrig (tag : OvTag) (op : BinOp) (x y : TV) : Res TV :=
+  if tag == .nat then cBin op x y else
+  let T := binResultTy op x.1 y.1
+  do
+    let pos ← isOverflowBin op true x y
+    if pos then react tag true T else do
+      let neg ← if op == .shl then isOverflowShlNegOrig x y else isOverflowBin op false x y
       if neg then react tag false T else cBin op x y
 
 /-- `is_overflow<minus_op, polarity>` -/
